@@ -172,6 +172,35 @@ func (d *D) Base(idx int, ctx *core.Ctx) *core.Scenario {
 		}
 		sc.Kind = "fmt-misuse"
 	}
+	if idx%7 == 3 {
+		// stdin mode: `evy fmt` and `evy fmt -c` without files. The input is what arrives on
+		// stdin, byte for byte: formatted, formatted but with CRLF or mixed line ends, without
+		// the final newline, unformatted, unparsable, empty.
+		base := source(r, ctx)
+		if len(base) > 4000 {
+			base = "x := 1\nprint x\n"
+		}
+		if ref, ok := reference("stdin.evy", base); ok && r.Chance(0.7) {
+			base = ref
+		}
+		switch r.Intn(6) {
+		case 0:
+			base = strings.ReplaceAll(base, "\n", "\r\n")
+		case 1:
+			if i := strings.Index(base, "\n"); i >= 0 {
+				base = base[:i] + "\r\n" + base[i+1:]
+			}
+		case 2:
+			base = strings.TrimRight(base, "\n")
+		case 3:
+			base = base + "\n"
+		}
+		sc.Files = nil
+		sc.Stdin = base
+		sc.Argv = [][]string{{"fmt", "-c"}, {"fmt", "-c"}, {"fmt"}}[r.Intn(3)]
+		sc.Kind = "fmt-stdin"
+		return sc
+	}
 	if idx%29 == 11 {
 		// symbolic links: the named path is a link with a relative target, in another
 		// directory than the working directory; a file with the target's name may sit
